@@ -20,6 +20,8 @@ CHECKS = {
          "TLA+ spec + TLC enumeration, replay on real code, TLC trace validation", "6 (C13)"),
  "C14": ("ForceDuration operator with the statement's preconditions, laws model-checked; TLC enumerates all well-formed timelines x d x filler; replay + random driver; TLC validates each call.",
          "TLA+ spec + TLC enumeration, replay on real code, TLC trace validation", "6 (C14)"),
+ "C15": ("LinearOK in exact BigInt arithmetic (cross-multiplied affine relation, 1000 ns band, order kept for positive slope, lengths scaled, content untouched); BigInt.tla itself model-checked against native integers and the relation against exact integer maps; TLC enumerates quadruples x cues on a grid replayed at 5 unit scales, plus a seeded ns-resolution driver with the NTSC/PAL slopes; every recorded call of ApplyLinearCorrection is validated by TLC.",
+         "TLA+ spec (BigInt) + TLC enumeration, replay on real code, TLC trace validation", "6 (C15)"),
 }
 LEVEL = {}
 NOT_YET = {}
